@@ -312,7 +312,8 @@ def reset_rules(R, ctx):
                     and s['place']['p'][-1]['k'] == 'deref':
                 swaps.append(bb)
         t = b.blocks[bb]['term']
-    resets = [bb for bb, t in b.calls() if callee_name(t).endswith('RollState::reset_size_and_date')]
+    RESET = 'writers::file_log_writer::state::RollState::reset_size_and_date'
+    resets = [bb for bb, t in b.calls() if callee_name(t) == RESET or (callee_name(t) in f.bodies and RESET in cg.reachable([callee_name(t)], spawn=False))]
     if not swaps:
         # the swap may be a Drop+assign pair (drop elaboration): look for DROP of (*writer) followed by assignment
         for bb in sorted(b.normal_blocks()):
